@@ -19,13 +19,13 @@ TRUST = ('Trusted base: CPython 3.12, Hypothesis 6.168, the harness in lib/harne
 add('C01', 'exploration', 'exhaustive enumeration of the finite message space + Hypothesis, reference-codec oracle',
     'Complete enumeration of all 1,331,463 non-sysex messages (both tiers) plus Hypothesis-drawn sysex payloads and '
     'times; every case is compared with an independent MIDI 1.0 encoder/decoder, so symmetric encoder/decoder errors '
-    'are visible. Exhaustive for the finite part, sampled for sysex length/content and time values.',
+    'are visible. Exhaustive for the finite part, sampled for sysex length/content and time values. Also: hex(sep) for arbitrary separator strings, encodings handed out are fresh objects, repeated decodes are independent.',
     TRUST + ' Sysex payloads beyond 100,000 bytes and NaN/inf times are not explored.')
 
 add('C02', 'exploration', 'exhaustive enumeration of short byte strings + Hypothesis mutation, recogniser oracle',
     'thorough enumerates all 16,843,009 byte strings of length 0..3 (quick: lengths 0..2 complete, length 3..5 over '
     'boundary alphabets); Hypothesis mutates valid encodings and injects out-of-range / non-integer items; from_hex over '
-    'spaced and malformed text. An independent single-message recogniser decides accept/reject and the exception type.',
+    'spaced and malformed text. An independent single-message recogniser decides accept/reject and the exception type. Typed arrays and cast memoryviews are included as integer sequences.',
     TRUST + ' Strings longer than 3 bytes are sampled, not enumerated (sysex is the only unbounded case).')
 add('C03', 'exploration', 'exhaustive attribute x value x entry-point grid + Hypothesis rule-based state machine, domain-table oracle',
     'The grid over every attribute of every type, a boundary/ill-typed value pool and every entry point is enumerated '
@@ -35,17 +35,17 @@ add('C03', 'exploration', 'exhaustive attribute x value x entry-point grid + Hyp
 add('C04', 'exploration', 'exhaustive class-alphabet enumeration + Hypothesis streams, soundness invariants',
     'All strings over a 14-letter byte-class alphabet up to length 5 (quick) / 6 (thorough) plus long drawn streams '
     'through every parser entry point; invariants: no exception, valid messages, real-time one-to-one, other messages a '
-    'subsequence of the input, parse() == head of parse_all().',
+    'subsequence of the input, parse() == head of parse_all(). Chunked bytes/bytearray feeding and repeatability of parsing are included.',
     TRUST + ' One representative per byte class stands for its class in the exhaustive part; drawn streams use all bytes.')
 add('C05', 'exploration', 'Hypothesis rule-based state machine + exhaustive cut enumeration, prefix-model metamorphic oracle',
     'State machine over feed/feed_byte/get_message/pending/iteration (nested, abandoned, while feeding) for Parser and '
     'ParserQueue against the model "messages so far == parse_all(prefix fed)"; all single and double cuts of all 5,832 '
-    'three-message streams.',
+    'three-message streams. Also two feeder threads on a ParserQueue under the deterministic scheduler (all <= 1-preemption schedules): hand-out order == parser order; a bystander instance is fed in between.',
     TRUST + ' parse_all on whole input is the reference (held to C04/C06).')
 add('C06', 'exploration', 'exhaustive prefix x message enumeration + Hypothesis, metamorphic oracle with reference encoder',
     'All class-alphabet prefixes up to length 3/4 and all proper prefixes of real encodings x all 18 types at two value '
     'settings; drawn prefixes/concatenations; real-time bytes at every interior position of sysex (1 and 2 insertions '
-    'exhaustive, many drawn). Encodings come from the independent encoder.',
+    'exhaustive, many drawn). Encodings come from the independent encoder. Every clause runs through list / bytes / generator / iterator / byte-wise (early and late retrieval) feeding; a 3000-message stream.',
     TRUST)
 add('C07', 'exploration', 'Hypothesis file generation + byte mutation, round-trip / refusal / fixed-point oracles',
     'Generated files (all event kinds, running-status runs and breaks, VLQ-boundary deltas, end_of_track anywhere) are '
@@ -70,24 +70,24 @@ add('C10', 'exploration', 'harness-owned deterministic thread scheduler: exhaust
     'yield at every traced line, cooperative RLock shim, sleep = forced yield). For a fixed set of small programs over '
     'every port kind every schedule with <= 1 preemption (quick) / <= 2 preemptions (thorough; windowed for the longest '
     'programs) and every starting thread is enumerated; larger programs and dense random schedules are drawn by '
-    'Hypothesis. The history is judged by exactly-once / intact / per-sender order / copy / termination invariants.',
+    'Hypothesis. The history is judged by exactly-once / intact / per-sender order / copy / termination invariants. Port kinds include an output device shared by two IOPort wrappers and direct senders, and a ParserQueue whose hand-out order is compared with the order its parser produced.',
     TRUST + ' Also trusted: the scheduler itself. Switches inside a single statement are not explored; schedule '
     'enumeration is bounded (preemption bound, program size).')
 add('C11', 'exploration', 'Hypothesis rule-based state machines per port kind + exhaustive self-close positions, executable model oracle with counted fake sleep',
     'One state machine per port kind against an executable model of queue/wire/closure, with mido.ports.sleep replaced '
     'by a counting fake that plays scripted arrivals and device self-closure; blocking behaviour is decided as bounded '
     'safety (exact sleep-tick counts, budget). Every position of the self-close among 0-3 arrivals x drain method is '
-    'enumerated.',
+    'enumerated. Fault rules: device closes itself, device _send starts failing after k sends (every k around the 32 reset messages enumerated); MultiPort built from a generator; PortServer blocking receive.',
     TRUST + ' "Never blocks forever" is checked against a 40-tick budget (correct code needs at most the script length).')
 add('C12', 'exploration', 'Hypothesis + reference merge model (differential oracle)',
     'Drawn track lists (ties, floats, end_of_track anywhere, all three message classes) are merged and compared message '
     'by message with a reference merge (absolute tick, track index, position) plus structural invariants and '
-    'input-unchanged snapshots.',
+    'input-unchanged snapshots. Tracks as lists, tuples, generators, one-shot iterators; re-merge after editing inputs and after the caller edited an earlier result.',
     TRUST)
 add('C13', 'exploration', 'Hypothesis + exact rational tempo map, fake clock simulation of play()',
     'Iteration and length are compared with an exact Fraction tempo-map integral over the reference merge order; play() '
     'runs on a fake clock with drawn consumer delays and oversleeps and its recorded sleep calls must equal a simulation '
-    'of "sleep exactly the remaining time"; tick2second/second2tick are checked as inverses over the full parameter ranges.',
+    'of "sleep exactly the remaining time"; tick2second/second2tick are checked as inverses over the full parameter ranges. An observation nested inside a running iteration and length after an in-place edit are included.',
     TRUST + ' Stated float tolerances (1e-12 per message, 1e-9 cumulative, few ulps of the clock origin).')
 add('C14', 'exploration', 'Hypothesis round-trip / negative-grammar generation, eval(repr) in a restricted namespace',
     'Round trips through str, dict and repr for all message classes, tracks and files; negative texts are built by '
@@ -97,32 +97,32 @@ add('C14', 'exploration', 'Hypothesis round-trip / negative-grammar generation, 
 add('C15', 'exploration', 'Hypothesis over values x override sets x assignments, value-semantics oracle with multi-route hashing',
     'copy/freeze/thaw are checked for class mapping, equality, independence, rejection of every mutation on frozen '
     'messages and hash/dict agreement between equal messages built along different routes (constructor, from_bytes, file, '
-    'copy, float time). One recorded finding (KF-C15-b) is excluded by construction and counted.',
+    'copy, float time). One recorded finding (KF-C15-b) is excluded by construction and counted. Copies of frozen messages, repeated thaws.',
     TRUST)
 add('C16', 'exploration', 'Hypothesis rule-based state machine, history-independence oracle against a freshly built file',
     'Edits through every documented route interleaved with observations (iterate, length, merged_track, play, save); '
     'each observation must equal the same observation on a freshly constructed MidiFile with the model contents; the '
-    'model is cross-checked against mid.tracks after every step.',
+    'model is cross-checked against mid.tracks after every step. Every successful observation is additionally compared with an independent reference (reference merge, exact tempo map, byte-exact reference SMF encoding), so state that would poison the fresh file too is seen; charset edits, poked results, abandoned iteration/play.',
     TRUST)
 add('C17', 'fault_enumeration', 'Hypothesis-drawn files x enumeration of every fault point (truncation offset, bad byte, bad charset, failing n-th event), public-API probe oracle',
     'For each drawn (charset, texts) file every load truncation offset and every listed load/save fault is executed; '
     'after every call a probe through the public API shows whether latin1 is in force again; the success path compares '
-    'file bytes with text.encode(charset) via the strict reference decoder.',
+    'file bytes with text.encode(charset) via the strict reference decoder. Faults include an output file whose n-th write() fails (exception kept alive) and misspelt charsets; success path also through real files and charset assignment after construction.',
     TRUST + ' Faults are those a load/save can meet from its inputs (no injected OS errors).')
 add('C18', 'fault_enumeration', 'Hypothesis-drawn message lists x enumeration of every disconnect offset over socketpair, prefix oracle; TCP PortServer scenarios; exhaustive address grid',
     'Every cut offset of every drawn stream (segmentation and poll placement drawn) is executed on an AF_UNIX socketpair '
     'with each drain method; the port must yield exactly the complete-message prefix, end iteration cleanly and report '
     'closed. Close propagation, send direction, PortServer with disconnecting clients and all 65535 ports x 7 hosts for '
-    'the address functions are covered.',
+    'the address functions are covered. Every socket case runs under a watchdog thread so that OS-level blocking is reported instead of hanging the check.',
     TRUST + ' The TCP part asserts timing-independent facts only (5 s deadline = lost, not slow, on loop-back).')
 add('C19', 'exploration', 'Hypothesis round trip through real temporary files + hand-formatted files, negative hex grammar',
     'Message lists are written in both SYX formats and read back; hand-written text (any whitespace, mixed case) and '
-    'binary files must read to the expected sysex list; a catalogue of malformed hex texts must raise ValueError.',
+    'binary files must read to the expected sysex list; a catalogue of malformed hex texts must raise ValueError. Stale longer file on the same path, 1500 messages in one file.',
     TRUST)
 add('C20', 'exploration', 'exhaustive enumeration of the configuration grid with an in-memory import finder, reference-resolution oracle',
     'The complete grid of function x name x environment x backend naming x api source x use_environ x load x module shape '
     'x entry point is executed against fake backend modules served by a logging import finder; constructor arguments, '
-    'import timing/count, result types and listings are compared with a reference resolution written from the statement.',
+    'import timing/count, result types and listings are compared with a reference resolution written from the statement. Histories: repeated set_backend on one module, environment / use_environ changed between two calls on one Backend.',
     TRUST + ' Cells the statement leaves undefined are not generated.')
 
 NOT_YET = {}
